@@ -22,17 +22,38 @@ SCHEMAS = [
                                                    {"name": "u", "type": ["null", "string", {"type": "map", "values": "double"}]},
                                                    {"name": "e", "type": {"type": "enum", "name": "E", "symbols": ["A", "B"]}}]},
     "long", ["null", "string"], {"type": "array", "items": "null"},
+    {"type": "record", "name": "X", "fields": [{"name": "a", "type": "int"}, {"name": "f", "type": "float"},
+                                               {"name": "m", "type": {"type": "map", "values": "int"}}, {"name": "d", "type": "double"}]},
 ]
 OTHER_SCHEMA = {"type": "record", "name": "Other", "fields": [{"name": "q", "type": "bytes"}]}
-CORPUS = [  # minimised past failures (F3)
+CORPUS = [  # minimised past failures (F3) and seeded defects (C07_1: rollback must not depend on the exception class)
     (0, ["w", "bad", "w", "flush"]),
+    (6, ["w", "bad", "w", "flush"]), (6, ["w", "bad", "bad", "w", "bad", "w", "flush"]), (6, ["bad", "w", "bad", "w", "reopen", "bad", "w", "flush"]),
     (0, ["w", "bad", "flush", "w", "reopen", "w", "flush"]),
 ]
 
 
-def mutate_bad(parsed, named, rec):
+def mutate_bad(parsed, named, rec, rng=None):
     """a record whose LAST non-nullable, non-boolean field is None (None when the schema is not a record)"""
     s = CC.resolve(parsed, named)
+    if isinstance(s, dict) and s.get("type") == "record" and isinstance(rec, dict) and rng is not None and rng.random() < 0.6:
+        # failures of OTHER exception classes than TypeError/ValueError, after earlier fields were encoded
+        exotic = []
+        for i, f in enumerate(s["fields"]):
+            ft = CC.resolve(f["type"], named)
+            if i == 0:
+                continue
+            if ft == "float":
+                exotic.append((f["name"], 1e40))                 # OverflowError: float too large to pack
+            elif ft == "double":
+                exotic.append((f["name"], 1 << 1100))            # OverflowError: int too large to convert to float
+            elif isinstance(ft, dict) and ft.get("type") == "map":
+                exotic.append((f["name"], [1, 2]))               # AttributeError: 'list' object has no attribute 'items'
+        if exotic:
+            k, v = rng.choice(exotic)
+            r = dict(rec)
+            r[k] = v
+            return r
     if isinstance(s, dict) and s.get("type") == "record" and isinstance(rec, dict):
         for f in reversed(s["fields"]):
             ft = CC.resolve(f["type"], named)
@@ -61,7 +82,7 @@ def build_history(rng, kinds, parsed, named, donor_blocks, si):
             ops.append(("write", rec))
         elif k == "bad":
             rec = dg.datum(parsed)
-            bad = mutate_bad(parsed, named, rec)
+            bad = mutate_bad(parsed, named, rec, rng)
             if isinstance(bad, str) and bad == "no-bad-record":
                 ops.append(("flush",))
             else:
